@@ -227,7 +227,9 @@ def eager_integrate_gaussian_gaussian(log_measure, integrand, reduced_vars):
             inputs = OrderedDict(
                 (k, d) for t in (log_measure, integrand) for k, d in t.inputs.items()
             )
-            lhs_white_vec, lhs_prec_sqrt = align_gaussian(inputs, log_measure)
+            lhs_white_vec, lhs_prec_sqrt = align_gaussian(
+                inputs, log_measure, expand=True
+            )
             rhs_white_vec, rhs_prec_sqrt = align_gaussian(inputs, integrand)
             lhs = Gaussian(
                 white_vec=lhs_white_vec, prec_sqrt=lhs_prec_sqrt, inputs=inputs
@@ -251,9 +253,7 @@ def eager_integrate_gaussian_gaussian(log_measure, integrand, reduced_vars):
             )
             data = (-0.5) * norm * (vmv_term + trace_term)
 
-            inputs = OrderedDict(
-                (k, d) for k, d in inputs.items() if k not in reduced_names
-            )
+            inputs = OrderedDict((k, d) for k, d in inputs.items() if d.dtype != "real")
             result = Tensor(data, inputs)
             return result.reduce(ops.add, reduced_names - real_vars)
 
